@@ -10,8 +10,8 @@ import (
 func init() {
 	register(&Property{
 		Meta: PropMeta{
-			ID:    "C02",
-			Level: "other",
+			ID:          "C02",
+			Level:       "other",
 			Explanation: "Structural necessary conditions of 'all documented spellings are interchangeable', decided on the SSA of /repo for all paths: (FUNNEL) parseOption is called only by parseLong and parseShort and Option.Set only by parseOption, setDefault and the INI reader, so every spelling ends in the same Set; the string handed to Set on the argument path is the inline argument or the popped next token, through unquoteIfPossible only; (UNQUOTE) unquoteIfPossible is called only in parseOption, after the two argument sources merge, guarded by nothing but the unquote tag, and Set(&arg) cannot be reached without it unless the tag says false; (ADMISSIBLE) the option-looking / custom-validator / `--` vetting of an argument is reachable only for the separate-token form (argument == nil); (SPLIT) splitOption separates at the first '=' (strings.Index), name = option[:pos], argument = option[pos+1:], the long form accepts any pos ≥ 0 and the short form exactly pos == encoded length of the first character; (RUNES) splitShortConcatArg splits after the first rune by its decoded width, parseShort names options by string(rune) and its last-rune test is byte offset + RuneLen == len, and the UNIT analysis finds no bytes/characters mix in these functions; (CLUSTER) only the first option of a cluster can receive the attached argument (nil on every back edge) and only the last may pop the next token, and only when its argument is not optional; (NEGATIVE) the negative-number exception unwraps every slice/pointer layer (loops in isSignedNumber and isBool) and requires a leading '-' followed by a digit.",
 			NotDecided:  "equality of the outcomes of two spellings (a relation between two executions); the documented exceptions' exact extent on every value.",
 			Trusted:     []string{"go/ssa lowering", "go/types", "strings.Index / utf8 contracts"},
